@@ -178,7 +178,9 @@ static void mk_ep(int e, struct bufferevent *bev, int fd)
 	if (is_app(e)) bufferevent_setcb(bev, rcb, wcb, ecb, (void *)(intptr_t)e);
 }
 
-static int sock_opts(void) { return BEV_OPT_CLOSE_ON_FREE | (defer_opt ? BEV_OPT_DEFER_CALLBACKS : 0); }
+/* no BEV_OPT_CLOSE_ON_FREE: the driver closes the descriptors at teardown, so that freeing one
+ * end is not at the same time a shutdown seen by the other end */
+static int sock_opts(void) { return defer_opt ? BEV_OPT_DEFER_CALLBACKS : 0; }
 
 static int setup(void)
 {
@@ -382,6 +384,7 @@ static void run_scenario(jval *sc)
 	if (kind == 1 && E[3].alive) do_free(3);
 	for (e = 1; e <= 2; e++) if (E[e].exists && (E[e].alive || (kind == 1 && e == 1))) { E[e].alive = 1; do_free(e); }
 	if (listen_fd >= 0) close(listen_fd);
+	if (kind == 2) for (e = 1; e <= 2; e++) if (E[e].exists && E[e].fd >= 0) close(E[e].fd);
 	for (e = 1; e <= 2; e++) if (base[e]) { event_base_loop(base[e], EVLOOP_NONBLOCK); event_base_free(base[e]); base[e] = NULL; }
 }
 
